@@ -51,6 +51,7 @@ func main() {
 	in := fs.String("in", "", "cases file (ndjson)")
 	out := fs.String("out", "", "observations file (ndjson)")
 	watchdog := fs.Duration("watchdog", 8*time.Second, "per-case time limit")
+	maxCrash := fs.Int("maxcrash", 12, "stop feeding cases after this many crashed / hung ones (a violation is established by then)")
 	if fam.flags != nil {
 		fam.flags(fs)
 	}
@@ -66,7 +67,7 @@ func main() {
 		runChild(fam)
 		return
 	}
-	if err := supervise(fam, *in, *out, *watchdog); err != nil {
+	if err := supervise(fam, *in, *out, *watchdog, *maxCrash); err != nil {
 		fmt.Fprintln(os.Stderr, "worker:", err)
 		os.Exit(2)
 	}
@@ -159,7 +160,8 @@ func (c *childProc) kill() {
 
 // supervise feeds cases one by one to a child process; a case on which the child dies or
 // exceeds the watchdog is recorded with outcome fatal/timeout and the child is restarted.
-func supervise(fam *family, in, out string, watchdog time.Duration) error {
+func supervise(fam *family, in, out string, watchdog time.Duration, maxCrash int) error {
+	crashes := 0
 	inf, err := os.Open(in)
 	if err != nil {
 		return err
@@ -220,6 +222,9 @@ func supervise(fam *family, in, out string, watchdog time.Duration) error {
 			}
 		}
 		for _, line := range variants {
+			if crashes >= maxCrash {
+				break
+			}
 			if !strings.HasSuffix(string(line), "\n") {
 				line = append(append([]byte{}, line...), '\n')
 			}
@@ -257,6 +262,7 @@ func supervise(fam *family, in, out string, watchdog time.Duration) error {
 					if fam.crashed == nil {
 						return fmt.Errorf("child died: %s", detail)
 					}
+					crashes++
 					emitCrash(fam.crashed(line, outcome, tail(detail, 3000)))
 				} else {
 					for _, l := range r.lines {
@@ -278,6 +284,7 @@ func supervise(fam *family, in, out string, watchdog time.Duration) error {
 				if fam.crashed == nil {
 					return fmt.Errorf("child timed out: %s", detail)
 				}
+				crashes++
 				emitCrash(fam.crashed(line, "timeout", tail(detail, 3000)))
 			}
 		}
